@@ -1,5 +1,5 @@
 From Coq Require Import List NArith Bool.
-From LTV.C12 Require Import Model ProofsA ProofsB ProofsC ProofsD.
+From LTV.C12 Require Import Model ProofsA ProofsB ProofsC ProofsD ProofsE ProofsF ProofsG.
 Import ListNotations.
 Local Open Scope N_scope.
 
@@ -34,7 +34,7 @@ Print Assumptions rate_bound_list.
 (* tick_grant: what receive_quota asks for a list with rate r after count microseconds is at most
    count*r/10^6 (fixed-point fraction rounds down), and at most the tick's own quota *)
 Theorem tick_grant :
-  forall count r, need_of (tick_quota count r) (tick_fraction count) r <= count * r / 1000000.
+  forall count r q, r <> 0 -> need_of q (tick_fraction count) r <= count * r / 1000000.
 Proof. exact ProofsD.tick_grant. Qed.
 Print Assumptions tick_grant.
 
@@ -94,12 +94,11 @@ Theorem node_used_never_underflows :
 Proof. exact ProofsB.node_used_spec. Qed.
 Print Assumptions node_used_never_underflows.
 
-(* REFUTED on the faithful model (and replayed on the real code): an internal_error IS reachable
-   from an op list a client can produce *)
-Theorem no_internal_error_refuted :
-  exists ops, valid_opsb init ops = true /\ snd (run init ops) = Some E_rate_insert.
-Proof. exact ProofsD.no_internal_error_refuted. Qed.
-Print Assumptions no_internal_error_refuted.
+(* regression: the op list that raised internal_error before commit 36e16d0 now runs clean *)
+Theorem rate_added_regression :
+  valid_opsb init witness_rate_added = true /\ snd (run init witness_rate_added) = None.
+Proof. exact ProofsD.rate_added_regression. Qed.
+Print Assumptions rate_added_regression.
 
 (* REFUTED: a slave limit is not enforced while the root is unlimited *)
 Theorem slave_limit_needs_root_limit_refuted :
@@ -110,10 +109,76 @@ Theorem slave_limit_needs_root_limit_refuted :
 Proof. exact ProofsD.slave_limit_needs_root_limit_refuted. Qed.
 Print Assumptions slave_limit_needs_root_limit_refuted.
 
-(* bounded witness: a slave with rate 0 under a limited root receives nothing in 5 ticks *)
-Theorem slave_rate0_starves_witness :
+(* regression: a rate-0 slave under a limited root is no longer starved (commit 5638f7b) *)
+Theorem slave_rate0_regression :
   valid_opsb init witness_slave_starves = true /\
+  snd (run init witness_slave_starves) = None /\
   exists x, last (map (fun p => Some (fst p)) (fst (run init witness_slave_starves))) None = Some x /\
-            option_map (fun s => (inact (s_tl s), held (s_tl s))) (nth_error (slaves x) 0) = Some ([(0, 0)], 0).
-Proof. exact ProofsD.slave_rate0_starves_witness. Qed.
-Print Assumptions slave_rate0_starves_witness.
+            option_map (fun s => inact (s_tl s)) (nth_error (slaves x) 0) = Some [].
+Proof. exact ProofsD.slave_rate0_regression. Qed.
+Print Assumptions slave_rate0_regression.
+
+(* ------------------------------------------------------------------ hierarchy (root + slaves) *)
+Theorem hierarchy_invariant_init : sinv init.
+Proof. exact ProofsG.sinv_init. Qed.
+Print Assumptions hierarchy_invariant_init.
+
+(* no_internal_error + invariant + global conservation for ALL valid op lists at the
+   ThrottleInternal level (this is the positive form of the former no_internal_error_refuted; the
+   residual class is Rate::insert's own range check, see rate_insert_only_by_range) *)
+Theorem hierarchy_run :
+  forall ops x, sinv x -> valid_opsb x ops = true ->
+  (snd (run x ops) = None \/ snd (run x ops) = Some E_rate_insert) /\
+  Forall (fun p => sinv (fst p)) (fst (run x ops)) /\
+  sinv (final x ops) /\
+  (let '(p, g, i) := totals x ops in G (final x ops) + p <= G x + g /\ g <= i).
+Proof. exact ProofsG.hierarchy_run. Qed.
+Print Assumptions hierarchy_run.
+
+(* one op: invariant preserved, quota enters only through ticks *)
+Theorem hierarchy_step :
+  forall x o, sinv x -> valid_opb x o = true ->
+  (exists x' ou, step x o = Ok (x', ou) /\ sinv x' /\ G x' + payload x o ou <= G x + sgrant x o)
+  \/ step x o = Err E_rate_insert.
+Proof. exact ProofsF.step_spec. Qed.
+Print Assumptions hierarchy_step.
+
+(* rate_bound over a window: payload through ALL lists <= burst (quota held at the start) +
+   sum over the ticks of elapsed x root rate / 10^6 (rate changes handled piecewise) *)
+Theorem rate_bound_hierarchy :
+  forall ops x, sinv x -> valid_opsb x ops = true ->
+  fst (fst (totals x ops)) <= G x + snd (totals x ops).
+Proof. exact ProofsG.rate_bound_hierarchy. Qed.
+Print Assumptions rate_bound_hierarchy.
+
+Theorem burst_bound :
+  forall x, sinv x -> G x <= (1 + N.of_nat (length (slaves x))) * (HB + Qmax).
+Proof. exact ProofsG.G_bound. Qed.
+Print Assumptions burst_bound.
+
+(* what one tick does to the hierarchy: exact m_unused_quota accounting, every list gets at most
+   need_of(quota, fraction, its rate) *)
+Theorem tick_distribution :
+  forall x quota f, tick_pre x -> quota <= Qmax ->
+  (exists x' acts, receive_quota x quota f = Ok (x', acts) /\ tick_pre x' /\
+     now x' = now x /\ mrate x' = mrate x /\ last_tick x' = last_tick x /\
+     G x' <= G x + quota /\
+     held (rtl x') <= held (rtl x) + need_of quota f (mrate x) /\ minc (rtl x') = minc (rtl x) /\
+     Forall2 (Rsl quota f) (slaves x) (slaves x'))
+  \/ receive_quota x quota f = Err E_rate_insert.
+Proof. exact ProofsE.receive_quota_spec. Qed.
+Print Assumptions tick_distribution.
+
+(* a slave reached by the tick: exact accounting (Hof = its unused + everything in its list),
+   share <= need_of, and reactivation of its longest-waiting connection *)
+Theorem slave_tick_reactivation :
+  forall s quota f, slv_inv true s -> quota <= Qmax ->
+  exists s' used acts e,
+    slave_receive_quota s quota f = Ok (s', used, acts) /\ slv_inv true s' /\ s_rate s' = s_rate s /\
+    used = signed_used quota e /\ Hof s' + e = Hof s + quota /\ e <= EB /\
+    held (s_tl s') <= held (s_tl s) + need_of quota f (s_rate s) /\
+    minc (s_tl s') = minc (s_tl s) /\
+    (forall id qq r, inact (s_tl s) = (id, qq) :: r ->
+       minc (s_tl s) <= qq + unalloc (s_tl s) + uu (s_tl s) -> In id acts).
+Proof. exact ProofsE.slave_rq_spec. Qed.
+Print Assumptions slave_tick_reactivation.
